@@ -22,7 +22,7 @@ theorem C04_exit' {w : World} {picks : List Nat} {r : Result}
 
 end Engine
 
-open BuildTop
+open Engine BuildTop
 
 theorem handles_exception (names : List String) (c : String) (h : names.contains "Exception" = true) :
     handles names (.exn c) = true := by
